@@ -401,3 +401,10 @@ Definition with_call_inherits (F : facts) (b : bool) : facts :=
   {| f_funtoken := f_funtoken F; f_wasm := f_wasm F; f_oracle := f_oracle F; f_guards := f_guards F;
      f_local_meter := f_local_meter F; f_oog_only := f_oog_only F; f_direct_ro := f_direct_ro F;
      f_call_inherits_static := b |}.
+
+(** a local gas meter that is not capped by the gas left on the contract (seeded change
+    "local gas meter oversized": limit = contract.Gas + requiredGas) *)
+Definition with_local_meter (F : facts) (b : bool) : facts :=
+  {| f_funtoken := f_funtoken F; f_wasm := f_wasm F; f_oracle := f_oracle F; f_guards := f_guards F;
+     f_local_meter := b; f_oog_only := f_oog_only F; f_direct_ro := f_direct_ro F;
+     f_call_inherits_static := f_call_inherits_static F |}.
